@@ -30,6 +30,11 @@ func onePage(api API, fh nt.Nfs_fh3, r pageReq) (ents []DirEntry, eof bool, st n
 	if r.Plus {
 		res := api.NFSPROC3_READDIRPLUS(nt.READDIRPLUS3args{Dir: fh, Cookie: nt.Cookie3(r.Cookie), Dircount: nt.Count3(r.Dircount), Maxcount: nt.Count3(r.Count)})
 		st = res.Status
+		if res.Resok.Reply.Entries != nil {
+			// the reply is the caller's: another listing served before it has been read (a client that keeps a page
+			// while it asks for the next, a transport that encodes later) must not change it
+			api.NFSPROC3_READDIRPLUS(nt.READDIRPLUS3args{Dir: fh, Cookie: 0, Dircount: 65536, Maxcount: 65536})
+		}
 		for e := res.Resok.Reply.Entries; e != nil; e = e.Nextentry {
 			de := DirEntry{Name: string(e.Name), Fileid: uint64(e.Fileid), Cookie: uint64(e.Cookie)}
 			if e.Name_handle.Handle_follows {
